@@ -317,6 +317,21 @@ func (f *fctx) applyContract(callee *ssa.Function, con *Contract, args []Term, p
 	envPre := f.contractEnv(con, callee, args, nil, pre, pre)
 	var preTerms []Term
 	for _, sp := range con.Splits {
+		if parts := strings.SplitN(sp.Var, ".", 2); len(parts) == 2 && !strings.HasPrefix(sp.Var, "$") && sp.HiVar == "" {
+			// split on a field of a parameter object: the field must be in the proved range at the call
+			for i, p := range callee.Params {
+				if p.Name() == parts[0] {
+					obj := args[i]
+					obj.Ty = p.Type()
+					if ft, ok := f.fieldIn(pre, obj, parts[1]); ok {
+						g := T(SBool, "(and (<= %s %s) (<= %s %s))", IntLit(int64(sp.Lo)).S, ft.S, ft.S, IntLit(int64(sp.Hi)).S)
+						preTerms = append(preTerms, g)
+						f.oblige("R", fmt.Sprintf("R/%s.split-%s@%s", FuncKey(callee), sp.Var, id), g, pos, fmt.Sprintf("%s in %d..%d (range the callee contract is proved for)", sp.Var, sp.Lo, sp.Hi))
+					}
+				}
+			}
+			continue
+		}
 		for i, p := range callee.Params {
 			if p.Name() == sp.Var {
 				if sp.HiVar != "" {
